@@ -21,6 +21,8 @@ type Cfg struct {
 	T      float64 `json:"t"`
 	Period uint32  `json:"period_s"`
 	Cold   uint32  `json:"cold_factor"`
+	// Interval: StatIntervalInMs of the warm-up rule (0 = default, one second). The threshold is tokens per interval.
+	Interval uint32 `json:"interval_ms,omitempty"`
 	// memory adaptive
 	LowT    int64 `json:"low_t,omitempty"`
 	HighT   int64 `json:"high_t,omitempty"`
@@ -37,9 +39,9 @@ func (P) Engine() string { return "E1" }
 
 func (P) Describe() harness.Description {
 	return harness.Description{
-		MustHit: []string{"cold_start_checked", "warmed_up_checked", "memory_reading_injected"},
+		MustHit: []string{"cold_start_checked", "warmed_up_checked", "memory_reading_injected", "statistic_window_of_several_seconds"},
 		Level:   "exploration",
-		Rule: "case = warm-up rule (threshold 0.5-60 incl. fractional and below the cold factor, period 1-10 s, cold factor 0 (default), 2-5) with a demand history of phases in virtual seconds (idle, saturating demand at four instants per second, steady single-token demand once per second), or a memory-adaptive rule (thresholds, water marks) with a sweep of injected memory readings. " +
+		Rule: "case = warm-up rule (threshold 0.5-60 incl. fractional and below the cold factor, period 1-10 s, cold factor 0 (default), 2-5, now and then 10-100, statistic interval 1 s or 2-5 s) with a demand history of phases in virtual seconds (idle, saturating demand at four instants per second, steady single-token demand once per second), or a memory-adaptive rule (thresholds, water marks) with a sweep of injected memory readings. " +
 			"Warm-up: admitted tokens in every aligned statistic window <= threshold; first second after an idle of >= 2*period+2 s admits <= ceil(T/coldFactor)+1; the last second of a saturating phase of >= 2*period+5 s admits >= floor(T); a steady single-token demand of >= 4*period+10 s is admitted at least once when T >= 1; the effective threshold (overlay accessor) is finite, >= 0 and <= T. " +
 			"Memory: effective threshold == low-memory threshold at/below the low mark, == high-memory threshold at/above the high mark, between them and non-increasing in between; a fresh window admits exactly floor(effective). non-trivial = a cold start was observed and the full threshold was reached later (warm-up) / all three regions were visited (memory); distinct = hash(config, ops)",
 		Assumptions: []string{"the slack constants (2*period+2 s idle, 2*period+5 s saturation, 4*period+10 s steady demand) are generous bounds chosen from the property text, not from the implementation", "effective threshold read through the overlay-only accessor flow.VerifControllersFor + the exported CalculateAllowedTokens"},
@@ -89,6 +91,9 @@ func (P) Gen(rng *sim.Rng, tier string) *harness.Case {
 		cfg.Cold = uint32([]int{0, 2, 3, 3, 5}[rng.Intn(5)])
 		if rng.Chance(0.2) {
 			cfg.Cold = uint32([]int{10, 30, 100}[rng.Intn(3)]) // services that start very cold
+		}
+		if rng.Chance(0.25) {
+			cfg.Interval = uint32([]int{2000, 2000, 3000, 5000}[rng.Intn(4)]) // a statistic window of several seconds
 		}
 		for n := rng.Range(3, 8); len(ops) < n; {
 			switch rng.Intn(3) {
@@ -150,7 +155,7 @@ func (P) Exec(c *harness.Case) *harness.Outcome {
 	}
 	if !harness.Call(o, "C11.panic", 0, func() {
 		_, err := flow.LoadRules([]*flow.Rule{{Resource: "res-0", TokenCalculateStrategy: flow.WarmUp, ControlBehavior: flow.Reject,
-			Threshold: cfg.T, WarmUpPeriodSec: cfg.Period, WarmUpColdFactor: cfg.Cold}})
+			Threshold: cfg.T, WarmUpPeriodSec: cfg.Period, WarmUpColdFactor: cfg.Cold, StatIntervalInMs: cfg.Interval}})
 		if err != nil {
 			o.Fail("C11.load-error", 0, "%v", err)
 		}
@@ -162,6 +167,13 @@ func (P) Exec(c *harness.Case) *harness.Outcome {
 		cold = 3
 	}
 	T := cfg.T
+	// W: seconds per statistic window. With the default interval the rule reads the resource's global statistic
+	// (500 ms buckets, sliding); with an interval of its own it has one bucket of that length, aligned to it.
+	W := 1
+	if cfg.Interval >= 2000 {
+		W = int(cfg.Interval / 1000)
+		o.Probe("statistic_window_of_several_seconds")
+	}
 	ref := &model.WindowLog{L: 500, I: 10000}
 	idleFor := uint64(1 << 30) // seconds without any admission demand (initially: forever)
 	sawCold, sawFull := false, false
@@ -187,6 +199,9 @@ func (P) Exec(c *harness.Case) *harness.Outcome {
 		}
 		ref.Add(now, model.KPass, 1)
 		lo, hi := ref.Range(now, 1000)
+		if W > 1 {
+			lo, hi = now-now%uint64(W*1000), now
+		}
 		if s := ref.Sum(model.KPass, lo, hi); float64(s) > T+1e-9 {
 			o.Fail("C11.rate-exceeds-threshold", step, "t=%d %d tokens admitted in the aligned window [%d,%d], configured threshold %v (period %d, cold factor %v)", now, s, lo, hi, T, cfg.Period, cold)
 		}
@@ -203,10 +218,18 @@ func (P) Exec(c *harness.Case) *harness.Outcome {
 			}
 		case "saturate":
 			per := int(math.Ceil(T)) + 2
-			lastSecond := 0
-			for s := 0; s < secs; s++ {
+			lastWindow := 0
+			if W > 1 {
+				// start on a window boundary and run whole windows
+				if r := clk.NowMs() % uint64(W*1000); r != 0 {
+					clk.AdvanceMs(uint64(W*1000) - r)
+					o.SimMs += uint64(W*1000) - r
+				}
+				secs = (secs + W - 1) / W * W
+			}
+			for s := 0; s < secs; s += W {
 				got := 0
-				for q := 0; q < 4; q++ {
+				for q := 0; q < 4*W; q++ {
 					if !checkEff(step) {
 						return o
 					}
@@ -221,24 +244,22 @@ func (P) Exec(c *harness.Case) *harness.Outcome {
 					clk.AdvanceMs(250)
 					o.SimMs += 250
 				}
-				if s == 0 && idleFor >= uint64(2*cfg.Period+2) {
+				if s == 0 && idleFor >= uint64(2*int(cfg.Period)+2+2*W) {
 					sawCold = true
 					o.Probe("cold_start_checked")
-					if float64(got) > math.Ceil(T/cold)+1 && uint32(T)/uint32(cold) == 0 {
-						o.KnownHit("C11.no-cooldown-below-cold-factor", "C11.cold-start-too-high", step, "first second after %d s of idleness admitted %d tokens; threshold %v / cold factor %v allows about %v", idleFor, got, T, cold, math.Ceil(T/cold))
-					} else if float64(got) > math.Ceil(T/cold)+1 {
-						o.Fail("C11.cold-start-too-high", step, "first second after %d s of idleness admitted %d tokens; threshold %v / cold factor %v allows about %v", idleFor, got, T, cold, math.Ceil(T/cold))
+					if float64(got) > math.Ceil(T/cold)+1 {
+						o.Fail("C11.cold-start-too-high", step, "first statistic window (%d s) after %d s of idleness admitted %d tokens; threshold %v / cold factor %v allows about %v", W, idleFor, got, T, cold, math.Ceil(T/cold))
 						return o
 					}
 				}
-				lastSecond = got
-				ref.Prune(clk.NowMs(), 5000)
+				lastWindow = got
+				ref.Prune(clk.NowMs(), 12000)
 			}
 			idleFor = 0
-			if secs >= int(2*cfg.Period+5) && T >= 1 {
+			if secs >= int(2*cfg.Period+5)+3*W && T >= 1 {
 				o.Probe("warmed_up_checked")
-				if float64(lastSecond) < math.Floor(T) {
-					o.Fail("C11.never-warms-up", step, "after %d s of saturating demand (warm-up period %d s) the last second admitted %d tokens, configured threshold %v", secs, cfg.Period, lastSecond, T)
+				if float64(lastWindow) < math.Floor(T) {
+					o.Fail("C11.never-warms-up", step, "after %d s of saturating demand (warm-up period %d s, statistic window %d s) the last window admitted %d tokens, configured threshold %v", secs, cfg.Period, W, lastWindow, T)
 					return o
 				}
 				if sawCold {
@@ -259,7 +280,7 @@ func (P) Exec(c *harness.Case) *harness.Outcome {
 				}
 				clk.AdvanceMs(1000)
 				o.SimMs += 1000
-				ref.Prune(clk.NowMs(), 5000)
+				ref.Prune(clk.NowMs(), 12000)
 			}
 			if got > 0 {
 				idleFor = 0
